@@ -113,6 +113,9 @@ func b01(b bool) int {
 }
 
 func c06Run(f []string) string {
+	if ans, ok := c06RunGlob(f); ok {
+		return ans
+	}
 	switch f[0] {
 	case "glob":
 		rec := f[1] == "1"
@@ -452,10 +455,12 @@ func c06Gen(r *Rand, tier string) []string {
 			}
 		}
 	}
-	nGlob, nOpen := 500, 250
+	// the file system as oracle tables (kept small: `globx` below runs the same code against the Lean model of the file system)
+	nGlob, nOpen := 100, 250
 	if tier == "thorough" {
-		nGlob, nOpen = 8000, 4000
+		nGlob, nOpen = 1000, 4000
 	}
+	out = append(out, c06GenGlobCases(r, tier)...)
 	for i := 0; i < nGlob; i++ {
 		out = append(out, c06GenGlob(r))
 	}
@@ -470,6 +475,7 @@ func c06Stats(cases []string) map[string]int {
 	for _, c := range cases {
 		f := strings.Fields(c)
 		st["op:"+f[0]]++
+		c06GlobStats(st, f)
 		switch f[0] {
 		case "glob":
 			if f[1] == "1" {
